@@ -24,7 +24,7 @@ TRUSTED = [
 ]
 ASSUMPTIONS = ['the representation is a non-empty in-memory body (BytesIO); chunked/content-coded responses and non-GET requests are "unchanged" by construction']
 RULE = ('all 0 <= first < last < n for n <= 24 (thorough: 64) + sampled up to 4096; 2-4 disjoint ranges of similar size in several request orders; open/suffix/out-of-range ranges; '
-	'malformed values (non-digits, signs, underscores, missing unit, reversed, empty elements); condition flags (method, protocol, validator, status); the validator a strong, weak or unquoted entity tag and/or a Last-Modified date in the three HTTP-date forms; '
+	'malformed values (non-digits, signs, underscores, missing unit, reversed, empty elements); condition flags (method, protocol, validator, status); a Response object that served another range request before, a stale Content-Length left on it; the validator a strong, weak or unquoted entity tag and/or a Last-Modified date in the three HTTP-date forms; '
 	'non-trivial = 206 with a proper sub-slice; distinct by canonical outcome')
 
 FLAGS = ('respProto11', 'reqProto11', 'status200', 'methodGET', 'etag', 'lastmod', 'notChunked')
@@ -105,6 +105,20 @@ def run(flags, n, v, var=0):
 	req = Request('GET' if get else 'POST', '/x', protocol=(1, 1) if reqP else (1, 0))
 	req.headers['Range'] = v
 	resp = Response(200 if st200 else 404, protocol=(1, 1) if respP else (1, 0))
+	if (n + len(v) + var) % 4 == 3:
+		# the Response object served another range request before (a server that keeps one per connection and fills it again)
+		req0 = Request('GET', '/x', protocol=(1, 1))
+		req0.headers['Range'] = 'bytes=1-3'
+		resp.status = 200
+		resp.body = body(17)
+		resp.headers['ETag'] = '"v0"'
+		ComposedResponse(resp, req0).prepare()
+		bytes(resp.body)
+		resp.status = 200 if st200 else 404
+		resp.headers.clear()
+		resp.body = b''
+	if var % 5 == 4:
+		resp.headers['Content-Length'] = str(n + 7)      # a stale length left on the message: prepare() computes its own
 	# the representation is supplied in one of three ways: assigned, written (file position at the end), assigned and partly read
 	mode = (n + len(v)) % 3
 	if mode == 1:
